@@ -81,37 +81,89 @@ def pc_tlc(ck, run, workers):
 COMBOS = [(False, False), (True, False), (False, True), (True, True)]      # (EncodedByteAlign, BlackIs1)
 
 
-def end_to_end(ck, counts, rows, row_syms, w, align, blackis1, origin, via_stream=False):
-    """the property itself on the real decoder: decode(T.6 encoding of rows) == rows"""
-    data = t6.assemble([t6.bits_of_row(s) for s in row_syms], align)
-    if via_stream:
-        out, err = decode_stream(data, w, len(rows), align, blackis1)
-    else:
-        out, err = g4run.decode(data, w, align, blackis1, omit_false=True)
-    case = {"kind": "image", "w": w, "rows": rows, "syms": row_syms, "align": align, "blackis1": blackis1,
-            "via_stream": via_stream, "origin": origin}
-    if err is not None:
-        capped(ck, counts, "decode:exception:" + err, "decoder raised %s on a conforming stream (%s, width %d, %d rows, align=%s, "
-               "BlackIs1=%s)" % (err, origin, w, len(rows), align, blackis1), case)
-        return False
+# The other entries of the CCITTFaxDecode parameter dictionary (ISO 32000-1 table 11), none of which changes what a
+# Group 4 stream decodes to: /Rows absent, 0 (= "height not predetermined", the default), the exact height, or larger
+# (the data then ends with EOFB before that many rows); /EndOfLine false (its default; true would require EOL
+# patterns in the data); /EndOfBlock true (default) with an EOFB in the data, or false with /Rows = height and no
+# EOFB; /DamagedRowsBeforeError any number.  -> (extra entries, write an EOFB)
+def param_variant(i, h):
+    v = i % 10
+    if v == 0:
+        return {}, True
+    if v == 1:
+        return {"Rows": 0}, True
+    if v == 2:
+        return {"Rows": h}, True
+    if v == 3:
+        return {"Rows": h + 3}, True
+    if v == 4:
+        return {"Rows": 0, "EndOfLine": False, "EndOfBlock": True, "DamagedRowsBeforeError": 0}, True
+    if v == 5:
+        return {"Rows": h, "EndOfBlock": False}, False
+    if v == 6:
+        return {"DamagedRowsBeforeError": 5, "EndOfLine": False}, True
+    if v == 7:
+        return {"Rows": h, "EndOfBlock": True, "DamagedRowsBeforeError": 1}, True
+    if v == 8:
+        return {"Rows": 0, "EndOfBlock": True}, True
+    return {"Rows": h + 1000, "EndOfLine": False}, True
+
+
+_variant = [0]
+
+
+def next_variant(h):
+    _variant[0] += 1
+    return param_variant(_variant[0], h)
+
+
+def judge(out, rows, w, blackis1):
+    """the decoded bytes against the original rows: a row is ceil(w/8) bytes, most significant bit first, sample 1 =
+    white unless BlackIs1, pad bits 0 in both polarities (G4.tla IsPacked).  -> None | (key, detail)"""
     got = t6.unpack(out, w, len(rows), blackis1)
     if got is None:
-        capped(ck, counts, "rows:count", "decoder returned %d bytes for %d rows of width %d (%s, align=%s)"
-               % (len(out), len(rows), w, origin, align), case)
-        return False
+        return "rows:count", "%d bytes for %d rows of width %d" % (len(out), len(rows), w)
     if got != rows:
         y = next(i for i in range(len(rows)) if got[i] != rows[i])
-        capped(ck, counts, "rows:differ", "decoded row %d differs from the original (%s, width %d, align=%s, BlackIs1=%s): %s"
-               % (y, origin, w, align, blackis1, ("got %r want %r" % (got[y], rows[y])) if w <= 40 else "first difference at x=%d"
-                  % next(x for x in range(w) if got[y][x] != rows[y][x])), case)
+        return "rows:differ", "row %d: %s" % (y, ("got %r want %r" % (got[y], rows[y])) if w <= 40 else "first difference at x=%d"
+                                              % next(x for x in range(w) if got[y][x] != rows[y][x]))
+    want = t6.pack(rows, w, blackis1)
+    if out != want:
+        stride = (w + 7) // 8
+        y = next(i for i in range(len(rows)) if out[i * stride:(i + 1) * stride] != want[i * stride:(i + 1) * stride])
+        return "rows:pad-bits", ("the pixels are right but the pad bits of row %d are not 0: last byte %02x, expected %02x"
+                                 % (y, out[(y + 1) * stride - 1], want[(y + 1) * stride - 1]))
+    return None
+
+
+def end_to_end(ck, counts, rows, row_syms, w, align, blackis1, origin, via_stream=False):
+    """the property itself on the real decoder: decode(T.6 encoding of rows) == rows, byte for byte"""
+    extra, eofb = next_variant(len(rows))
+    data = t6.assemble([t6.bits_of_row(s) for s in row_syms], align, eofb=eofb)
+    if via_stream:
+        out, err = decode_stream(data, w, len(rows), align, blackis1, extra)
+    else:
+        out, err = g4run.decode(data, w, align, blackis1, omit_false=True, extra=extra)
+    case = {"kind": "image", "w": w, "rows": rows, "syms": row_syms, "align": align, "blackis1": blackis1,
+            "via_stream": via_stream, "origin": origin, "extra_params": extra, "eofb": eofb}
+    shown = "align=%s, BlackIs1=%s, further parameters %r%s" % (align, blackis1, extra, "" if eofb else ", no EOFB")
+    if err is not None:
+        capped(ck, counts, "decode:exception:" + err, "decoder raised %s on a conforming stream (%s, width %d, %d rows, %s)"
+               % (err, origin, w, len(rows), shown), case)
+        return False
+    bad = judge(out, rows, w, blackis1)
+    if bad:
+        capped(ck, counts, bad[0], "decoded image is not the original (%s, width %d, %d rows, %s): %s"
+               % (origin, w, len(rows), shown, bad[1]), case)
         return False
     return True
 
 
-def decode_stream(data, w, h, align, blackis1):
+def decode_stream(data, w, h, align, blackis1, extra=None):
     from pdfminer.pdftypes import PDFStream
     from pdfminer.psparser import LIT
-    parms = {"K": -1, "Columns": w, "Rows": h}
+    parms = {"K": -1, "Columns": w}
+    parms.update(extra or {})
     if align:
         parms["EncodedByteAlign"] = True
     if blackis1:
@@ -228,6 +280,7 @@ def files_replay(ck, counts, stats, rng):
     for d in range(n_docs):
         images = {}
         want = {}
+        extra_of = {}
         extra = {}
         # every way the stream dictionary may spell its filter and parameters (ISO 32000-1 7.3.10, table 5): each value
         # direct or an indirect reference, /Filter a name or an array, /DecodeParms a dictionary or an array
@@ -239,8 +292,10 @@ def files_replay(ck, counts, stats, rng):
             rows = [[0 if rng.random() < rng.choice([0.1, 0.5]) else 1 for _ in range(w)] for _ in range(h)]
             strat = rng.choice(list(t6.STRATEGIES))
             align, bi = COMBOS[(d + i) % 4]
-            data = t6.assemble([t6.bits_of_row(s) for s in t6.encode(rows, w, t6.STRATEGIES[strat](rng))], align)
-            parms = {"K": -1, "Columns": w, "Rows": h}
+            xp, eofb = next_variant(h)
+            data = t6.assemble([t6.bits_of_row(s) for s in t6.encode(rows, w, t6.STRATEGIES[strat](rng))], align, eofb=eofb)
+            parms = {"K": -1, "Columns": w}
+            parms.update(xp)
             if align:
                 parms["EncodedByteAlign"] = True
             if bi:
@@ -262,6 +317,9 @@ def files_replay(ck, counts, stats, rng):
                                    "BitsPerComponent": 1, "ColorSpace": Name("DeviceGray"),
                                    "Filter": fval, "DecodeParms": pval}, data)
             want[name] = (rows, w, bi, "%s /Filter %s /DecodeParms %s" % (strat, fs, ps), align, data)
+            extra_of[name] = dict(parms)
+            for k0 in ("K", "Columns", "EncodedByteAlign", "BlackIs1"):
+                extra_of[name].pop(k0, None)
         pdf, _info = simple_doc([b"q 10 0 0 10 0 0 cm /Im0 Do Q"], xobjects=images, extra_objects=extra,
                                 form=("table", "stream")[d % 2])
         try:
@@ -282,11 +340,12 @@ def files_replay(ck, counts, stats, rng):
             except BaseException as e:  # noqa: B902
                 capped(ck, counts, "stream-dict:exception:" + type(e).__name__ + ":" + shapes.replace(" ", ""),
                        "get_data() of a Group 4 image XObject raised %r (%s); ccittfaxdecode() called directly on the same bytes "
-                       "and parameters: %s" % (e, case["origin"], "restores the rows" if g4run.decode(data, w, align, bi)[0] ==
+                       "and parameters: %s" % (e, case["origin"], "restores the rows" if g4run.decode(data, w, align, bi, extra=extra_of[name])[0] ==
                                                t6.pack(rows, w, bi) else "fails too"), case)
                 continue
-            if t6.unpack(out, w, len(rows), bi) != rows:
-                capped(ck, counts, "rows:differ", "image XObject decoded to other rows (%s, width %d)" % (case["origin"], w), case)
+            bad = judge(out, rows, w, bi)
+            if bad:
+                capped(ck, counts, bad[0], "image XObject did not decode to its rows (%s, width %d): %s" % (case["origin"], w, bad[1]), case)
             done += 1
     stats["image_xobjects_in_files"] = done
     ck.replayed += done
@@ -386,10 +445,11 @@ def record_traces(ck, rng, counts):
         if t6.decode_syms(syms, w) != [t6.changes(r) for r in rows]:
             raise MachineryError("T.6 writer self-check failed on " + origin)
         align, bi = COMBOS[i % 4]
-        data = t6.assemble([t6.bits_of_row(s) for s in syms], align)
+        xp, eofb = next_variant(len(rows))
+        data = t6.assemble([t6.bits_of_row(s) for s in syms], align, eofb=eofb)
         rec = g4run.Recorder().install()
         try:
-            out, err = g4run.decode(data, w, align, bi)
+            out, err = g4run.decode(data, w, align, bi, extra=xp)
         finally:
             rec.uninstall()
         case = {"kind": "image", "w": w, "rows": rows if w <= 400 else "(see origin)", "align": align, "blackis1": bi, "origin": origin,
@@ -398,9 +458,10 @@ def record_traces(ck, rng, counts):
         # the property on the real result
         if err is not None:
             capped(ck, counts, "decode:exception:" + err, "decoder raised %s (%s, align=%s, BlackIs1=%s)" % (err, origin, align, bi), case)
-        elif t6.unpack(out, w, len(rows), bi) != rows:
-            capped(ck, counts, "rows:differ" if t6.unpack(out, w, len(rows), bi) is not None else "rows:count",
-                   "decoded image differs from the original (%s, align=%s, BlackIs1=%s)" % (origin, align, bi), case)
+        elif judge(out, rows, w, bi):
+            bad = judge(out, rows, w, bi)
+            capped(ck, counts, bad[0], "decoded image is not the original (%s, align=%s, BlackIs1=%s, further parameters %r): %s"
+                   % (origin, align, bi, xp, bad[1]), case)
         traces.append({"origin": "%s align=%s bi=%s" % (origin, align, bi), "w": w, "rows": [t6.changes(r) for r in rows],
                        "ev": [{k: e[k] for k in ("m", "d", "n1", "n2", "pos", "col", "y", "ch")} for e in rec.ev]})
         events += len(rec.ev)
@@ -624,7 +685,7 @@ def table_probe(ck, counts, stats, rng):
         seen = ""
         for align, bi in COMBOS[:2]:
             out, err = g4run.decode(t6.assemble([t6.bits_of_row(r) for r in syms], align), w, align, bi, omit_false=True)
-            if err is not None or t6.unpack(out, w, len(rows), bi) != rows:
+            if err is not None or judge(out, rows, w, bi):
                 ok = False
                 seen = ("the decoder raises " + err) if err else "the rows differ"
         if ok:
@@ -649,7 +710,7 @@ def probes(ck, counts, stats):
     st = PDFStream({"Filter": LIT("CCITTFaxDecode"), "DecodeParms": {"K": -1}, "Length": len(data)}, data)
     try:
         out = st.get_data()
-        ok = t6.unpack(out, w, 3, False) == rows
+        ok = judge(out, rows, w, False) is None
         err = None
     except BaseException as e:  # noqa: B902
         ok, err = False, type(e).__name__
@@ -737,9 +798,9 @@ def replay(path):
         rows, w = case["rows"], case["w"]
         syms = case.get("syms") or t6.encode(rows, w, t6.STRATEGIES["canon"](None))
         for align, bi in COMBOS:
-            data = t6.assemble([t6.bits_of_row(s) for s in syms], align)
-            out, err = g4run.decode(data, w, align, bi)
-            ok = err is None and t6.unpack(out, w, len(rows), bi) == rows
+            data = t6.assemble([t6.bits_of_row(s) for s in syms], align, eofb=case.get("eofb", True))
+            out, err = g4run.decode(data, w, align, bi, extra=case.get("extra_params"))
+            ok = err is None and judge(out, rows, w, bi) is None
             print("align=%-5s BlackIs1=%-5s -> %s" % (align, bi, "rows restored" if ok else ("raised " + err if err else "ROWS DIFFER")))
             bad |= not ok
     elif kind == "row":
